@@ -24,6 +24,15 @@ pub struct JoinHandle<T: Sized> {
 // Kernel will set this to 0 on child exit https://man7.org/linux/man-pages/man2/set_tid_address.2.html
 const UNFINISHED: u32 = 1;
 
+/// Returning from the wait doesn't mean the thread is gone (a futex wait can return without a wake),
+/// the word does.
+#[inline]
+fn wait_until_exited(futex: &AtomicU32) {
+    while futex.load(Ordering::Acquire) == UNFINISHED {
+        futex_wait_fast(futex, UNFINISHED);
+    }
+}
+
 impl<T: Sized> JoinHandle<T> {
     /// If the thread has panicked, this will return `None`
     #[must_use]
@@ -32,7 +41,7 @@ impl<T: Sized> JoinHandle<T> {
         unsafe {
             #[cfg(feature = "verif-hooks")]
             crate::verif::gate(crate::verif::JOIN_BEFORE_WAIT, self.tsm.0 as usize);
-            futex_wait_fast(self.tsm.get_futex(), UNFINISHED);
+            wait_until_exited(self.tsm.get_futex());
             // The thread has completed, we have exclusive access to the memory.
             // Pack it into a box, then consume the box to get the value off the heap.
             #[cfg(feature = "verif-hooks")]
@@ -66,7 +75,7 @@ impl<T: Sized> Drop for JoinHandle<T> {
                 // by the OS through the futex, then we know we have exclusive access to the memory.
                 #[cfg(feature = "verif-hooks")]
                 crate::verif::gate(crate::verif::DROP_BEFORE_WAIT, self.tsm.0 as usize);
-                futex_wait_fast(self.tsm.get_futex(), UNFINISHED);
+                wait_until_exited(self.tsm.get_futex());
                 #[cfg(feature = "verif-hooks")]
                 crate::verif::gate(crate::verif::DROP_BEFORE_FREE_BLOCK, self.tsm.0 as usize);
                 // Nobody will take the thread's return value, run its destructor, but only after
